@@ -53,6 +53,7 @@ type FuncV struct {
 	fn      *ssa.Function
 	free    []Value
 	builtin *ssa.Builtin
+	native  func(ex *Exec, fr *Frame, args []Value) Value
 }
 
 type TupleV []Value
